@@ -215,27 +215,18 @@ def cp4 (b0 b1 b2 b3 : Nat) : Nat := b0 % 8 * 262144 + b1 % 64 * 4096 + b2 % 64 
 def utf8Decode : List Nat → Option (List Nat)
   | [] => some []
   | b0 :: bs =>
-    if b0 < 0x80 then
-      match utf8Decode bs with
-      | some r => some (b0 :: r)
-      | none => none
+    if b0 < 0x80 then (utf8Decode bs).map (b0 :: ·)
     else if b0 < 0xC0 then none
     else if b0 < 0xE0 then
       match bs with
       | b1 :: r =>
-        if isCont b1 ∧ 0x80 ≤ cp2 b0 b1 then
-          match utf8Decode r with
-          | some cs => some (cp2 b0 b1 :: cs)
-          | none => none
-        else none
+        if isCont b1 ∧ 0x80 ≤ cp2 b0 b1 then (utf8Decode r).map (cp2 b0 b1 :: ·) else none
       | _ => none
     else if b0 < 0xF0 then
       match bs with
       | b1 :: b2 :: r =>
         if isCont b1 ∧ isCont b2 ∧ 0x800 ≤ cp3 b0 b1 b2 ∧ isScalar (cp3 b0 b1 b2) then
-          match utf8Decode r with
-          | some cs => some (cp3 b0 b1 b2 :: cs)
-          | none => none
+          (utf8Decode r).map (cp3 b0 b1 b2 :: ·)
         else none
       | _ => none
     else if b0 < 0xF8 then
@@ -243,9 +234,7 @@ def utf8Decode : List Nat → Option (List Nat)
       | b1 :: b2 :: b3 :: r =>
         if isCont b1 ∧ isCont b2 ∧ isCont b3 ∧ 0x10000 ≤ cp4 b0 b1 b2 b3
             ∧ cp4 b0 b1 b2 b3 < 0x110000 then
-          match utf8Decode r with
-          | some cs => some (cp4 b0 b1 b2 b3 :: cs)
-          | none => none
+          (utf8Decode r).map (cp4 b0 b1 b2 b3 :: ·)
         else none
       | _ => none
     else none
